@@ -291,3 +291,39 @@ def filter_against_a_direct_dft_sampled():
     half = new(SIG, t, v.copy())
     half.filter_frequencies(lambda f: 0.5 * resp(f), force_real=True)
     prove("homogeneous-in-the-response", bool(np.all(np.abs(half.values - 0.5 * sig.values) <= 1e-9 * scale)))
+
+
+@harness(clause="bounded-whole-filter", bounded=30, label="B")
+def tabulated_response_applied_repeatedly_sampled():
+    """history: a vectorised response that serves a stored complex gain table (tabulated antenna or amplifier response,
+    memoised per frequency grid) is applied to several signals on the same grid - every application is the
+    Hermitian-symmetrised filter, and the caller's table is not modified (frame condition on the response's data)"""
+    n = integer("times_len", 2, 48)
+    dt = 10 ** real("log10_dt", -10, 0)
+    t = real("grid_start", -5, 5) * n * dt + dt * np.arange(n)
+    fc = real("corner_fraction", 0.05, 0.9) * 0.5 / dt
+    delay = integer("delay_samples", 0, 5) * dt
+    tables = {}
+
+    def tabulated(f):
+        key = np.asarray(f).tobytes()
+        if key not in tables:
+            fa = np.asarray(f, dtype=float)
+            tables[key] = np.exp(-2j * np.pi * fa * delay) / (1 + 1j * fa / fc)
+        return tables[key]
+    N2 = 2 * n
+    freqs = np.fft.fftfreq(N2, dt)
+    H = np.exp(-2j * np.pi * np.abs(freqs) * delay) / (1 + 1j * np.abs(freqs) / fc)
+    H = np.where(freqs < 0, np.conj(H), H)
+    for k in range(3):
+        v = absarr("values_%d" % k, n)
+        sig = new(SIG, t, v.copy())
+        sig.filter_frequencies(tabulated, force_real=True)
+        want = np.real(np.fft.ifft(H * np.fft.fft(np.concatenate((v, np.zeros(n)))))[:n])
+        scale = max(float(np.max(np.abs(v))), 1e-300)
+        prove("application-%d-equals-the-hermitian-symmetrised-filter" % (k + 1), bool(np.all(np.abs(sig.values - want) <= 1e-9 * scale)))
+    ok = True
+    for key, tab in tables.items():
+        fa = np.frombuffer(key, dtype=float)
+        ok = ok and bool(np.array_equal(tab, np.exp(-2j * np.pi * fa * delay) / (1 + 1j * fa / fc)))
+    prove("the-response's-own-table-is-not-modified", ok)
